@@ -137,6 +137,77 @@ def login_joins(chk, java_hex):
                               'login to server id %r with a session service that %s: join() was called with %s; the hash is %s' % (sid, mode, joins, want))
 
 
+def concurrent_joins(chk):
+    """Several accounts log in from one process at the same time (one thread each, as a multi-bot client does): every join
+    request the session service receives carries the access token and profile of ONE account together with a server hash that
+    this account was given - never another account's hash."""
+    import sys, threading, time, json
+    from minecraft import authentication as A
+    seconds = 2.5 if chk.tier == 'thorough' else 1.0
+    toks = []
+    for i in range(4):
+        t = A.AuthenticationToken(username='user%d' % i, access_token='acc%d' % i, client_token='cli%d' % i)
+        t.profile = A.Profile(id_='pid%d' % i, name='Name%d' % i)
+        toks.append(t)
+    seen, errors, issued = [], [], [0] * 4
+
+    class Reply(object):
+        status_code = 204
+        text = ''
+
+        def json(self):
+            raise ValueError('no body')
+
+    def post(url, data=None, headers=None, timeout=None, **kw):
+        seen.append((url, data))
+        return Reply()
+    real_post, old = A.requests.post, sys.getswitchinterval()
+    A.requests.post = post
+    stop = time.time() + seconds
+
+    def body(i):
+        n = 0
+        try:
+            while time.time() < stop:
+                toks[i].join('%d:%d' % (i, n))
+                n += 1
+        except Exception as e:
+            errors.append(exn_name(e))
+        issued[i] = n
+    try:
+        sys.setswitchinterval(1e-6)
+        ts = [threading.Thread(target=body, args=(i,)) for i in range(4)]
+        for t in ts:
+            t.start()
+        for t in ts:
+            t.join(60)
+    finally:
+        sys.setswitchinterval(old)
+        A.requests.post = real_post
+    chk.count('concurrent-joins', [4, 'threads'], True)
+    what = None
+    if errors:
+        what = 'join raised %s' % errors[:3]
+    else:
+        per = [0] * 4
+        for url, data in seen:
+            try:
+                d = json.loads(data)
+                i = int(d['accessToken'][3:])
+                ok = d['selectedProfile'] == {'id': 'pid%d' % i, 'name': 'Name%d' % i} and d['serverId'].split(':')[0] == str(i) and url.endswith('/join')
+                per[i] += 1
+            except Exception:
+                ok = False
+            if not ok:
+                what = 'a join request reached the service as %s' % str(data)[:200]
+                break
+        if what is None and per != issued:
+            what = 'requests per account %s; joins made %s' % (per, issued)
+    if what:
+        chk.violation('concurrent-joins', 'concurrent-joins', {'case': {'threads': 4, 'joins': issued}, 'observed': what},
+                      'four accounts joining from four threads (%d joins): %s' % (sum(issued), what))
+
+
 def run(chk):
     common.standard_proof(chk, 'Properties/C17.v')
     from minecraft.networking import encryption
@@ -206,6 +277,7 @@ def run(chk):
             chk.violation('hash-from-wire', 'wire:%r' % (sid,), {'case': {'server_id': sid, 'server_id_utf8': sid.encode('utf-8').hex(), 'secret': secret.hex(), 'key': key.hex()[:200]}, 'expected': oracle, 'observed': got},
                           'encryption request with server id %r decoded by the real packet class: the hash made from the decoded fields is %s; the hash of what the server sent is %s' % (sid, got, oracle))
     login_joins(chk, java_hex)
+    concurrent_joins(chk)
     chk.sample('hash', {'server_id': 'Notch', 'hash': encryption.generate_verification_hash('Notch', b'', b'')}, k=1)
     # arbitrary digests through the formatting function
     digs = [bytes([0] * 20), bytes([0xff] * 20), bytes([0x80] + [0] * 19), bytes([0x7f] + [0xff] * 19), bytes([0] * 19 + [1]),
